@@ -47,6 +47,31 @@ def run_countries(shard, mon, S):
             mon.viol("effective_country_table_differs_from_files", {"countries": diff}, "R-DATA merge", "library view differs")
         if registry.get("bank") != data.banks():
             mon.viol("effective_bank_list_differs_from_files", {}, "R-DATA concatenation", "library view differs")
+    # a registry file that names the same key twice inside one object silently loses the earlier value when it is
+    # read: every object of every bundled file has distinct keys
+    import glob  # noqa: PLC0415
+    import json as js_  # noqa: PLC0415
+    import os as os_  # noqa: PLC0415
+
+    def _pairs(prs, _path=[]):  # noqa: B006
+        seen_ = {}
+        for k_, v_ in prs:
+            if k_ in seen_:
+                dups.append(k_)
+            seen_[k_] = v_
+        return seen_
+
+    for fp_ in sorted(glob.glob(os_.path.join(env.PKG, "iban_registry", "*.json")) + glob.glob(os_.path.join(env.PKG, "bank_registry", "*.json"))):
+        dups: list = []
+        try:
+            with open(fp_, encoding="utf-8") as fh_:
+                js_.load(fh_, object_pairs_hook=_pairs)
+        except Exception:  # noqa: BLE001, S112
+            continue
+        mon.ev()
+        mon.tally("registry_files_scanned_for_duplicate_keys")
+        if dups:
+            mon.viol("registry_file_names_a_key_twice", {"file": os_.path.relpath(fp_, env.PKG), "keys": sorted(set(dups))[:8]}, "distinct keys in every object", sorted(set(dups))[:8])
     for cc, spec in sorted(table.items()):
         mon.ev()
         mon.distinct(("country", cc))
